@@ -8,6 +8,8 @@
  *                           over-long path, "", a regular file, a listener whose backlog is full
  *        Q<flags><target>   uv_pipe_connect2, flags digit 0|1|2, targets as above plus
  *                           z (name with an embedded NUL)
+ *        W uv_write of one byte, H uv_shutdown, G uv_read_start (only with a descriptor, no connect
+ *        pending, not closing; no W/H after H or G; their callbacks do nothing)
  *        C uv_close   R uv_run(NOWAIT)
  *   script: s<0|errno> per socket() made inside a connect call; p|e<errno> per connect();
  *           gp|g<errno> per getsockopt(SO_ERROR) (gp: ask the kernel)
@@ -64,6 +66,7 @@ static FILE *slog, *clog_, *glog, *evlog; static char *slog_b, *clog_b, *glog_b,
 static int listener = -1, lport, ulistener = -1, cport, flistener = -1;
 static char fpath[160];
 static FILE* vlog; static char* vlog_b; static size_t vlog_n; static int unclaimed;
+static int aux_out, g_now;       /* write/shutdown requests of the script still outstanding; shutdown/read_start done */
 static char upath[160], missing[160], overlong[512], regfile[160];
 /* write2 part */
 static int w_fd = -1; static FILE* wlog; static char* wlog_b; static size_t wlog_n; static int w_logged;
@@ -121,7 +124,7 @@ int __wrap_epoll_pwait(int epfd, struct epoll_event* ev, int max, int timeout, c
   }
   if (g_active && epfd == loop.backend_fd && g_watch_fd >= 0)
     for (i = 0; i < n; i++)
-      if (ev[i].data.fd == g_watch_fd && (ev[i].events & (EPOLLOUT | EPOLLERR | EPOLLHUP))) saw_event = 1;
+      if (ev[i].data.fd == g_watch_fd && (ev[i].events & (EPOLLIN | EPOLLOUT | EPOLLERR | EPOLLHUP))) saw_event = 1;
   return n;
 }
 
@@ -136,13 +139,16 @@ ssize_t __wrap_write(int fd, const void* b, size_t n) {
   errno = e; return r;
 }
 
-/* connections that reached the harness's listeners since the last call (they are closed at once) */
+/* connections that reached the harness's listeners since the last call; they are kept open until the
+ * end of the case (resetting them at once would change what the connecting side sees) */
+static int held_conn[1024]; static int n_held;
 static int arrivals(void) {
   int s, n = 0;
-  while ((s = accept4(listener, NULL, NULL, SOCK_NONBLOCK)) >= 0) { abort_close(s); n++; }
-  while ((s = accept4(ulistener, NULL, NULL, SOCK_NONBLOCK)) >= 0) { close(s); n++; }
+  while ((s = accept4(listener, NULL, NULL, SOCK_NONBLOCK)) >= 0) { if (n_held < 1024) held_conn[n_held++] = s; else abort_close(s); n++; }
+  while ((s = accept4(ulistener, NULL, NULL, SOCK_NONBLOCK)) >= 0) { if (n_held < 1024) held_conn[n_held++] = s; else close(s); n++; }
   return n;
 }
+static void release_conns(void) { while (n_held > 0) abort_close(held_conn[--n_held]); }
 
 static void run_beh(void) {
   int k = cbn++;
@@ -163,10 +169,20 @@ static void connect_cb(uv_connect_t* r, int status) {
       pf[0].revents = pf[1].revents = 0; poll(pf, 2, 2000); a = arrivals();
     }
     if (status == 0) unclaimed = a + unclaimed > 0 ? a + unclaimed - 1 : 0; else unclaimed += a;
-    fprintf(vlog, "c%d,%d,%d,%d ", ((struct creq*) r)->id, status, a, gp);
+    fprintf(vlog, "c%d,%d,%d,%d,%d%d ", ((struct creq*) r)->id, status, a, gp,
+            uv_is_readable(r->handle), uv_is_writable(r->handle));
   }
   printf("k%d:%d ", ((struct creq*) r)->id, status);
   run_beh();
+}
+static void aux_write_cb(uv_write_t* r, int st) { (void) st; aux_out--; free(r); }
+static void aux_shutdown_cb(uv_shutdown_t* r, int st) { (void) st; aux_out--; free(r); }
+static void aux_alloc_cb(uv_handle_t* hd, size_t sz, uv_buf_t* b) { static char rb[4096]; (void) hd; (void) sz; *b = uv_buf_init(rb, sizeof rb); }
+static void aux_read_cb(uv_stream_t* st, ssize_t n, const uv_buf_t* b) { (void) st; (void) n; (void) b; }
+/* uv_write / uv_shutdown / uv_read_start are issued only with a descriptor, no connect pending, not closing */
+static int aux_allowed(void) {
+  uv_os_fd_t fd = -1;
+  return !g_closing && uv_fileno(&h.handle, &fd) == 0 && h.stream.connect_req == NULL;
 }
 static void close_cb(uv_handle_t* hd) { (void) hd; if (!g_quiet) printf("x "); }
 static void prep_cb(uv_prepare_t* p) { (void) p; }
@@ -253,8 +269,24 @@ static void do_ops(char* ops, int in_cb) {
         printf("u%d:%d ", q->id, r);
       }
       break;
+    case 'W':
+      if (aux_allowed() && !g_now && uv_is_writable(&h.stream)) {
+        static char wb = 'w'; uv_buf_t b = uv_buf_init(&wb, 1); uv_write_t* w = malloc(sizeof *w);
+        if (uv_write(w, &h.stream, &b, 1, aux_write_cb) == 0) aux_out++; else free(w);
+      }
+      break;
+    case 'H':
+      if (aux_allowed() && !g_now && uv_is_writable(&h.stream)) {
+        uv_shutdown_t* sh = malloc(sizeof *sh);
+        g_now = 1;
+        if (uv_shutdown(sh, &h.stream, aux_shutdown_cb) == 0) aux_out++; else free(sh);
+      }
+      break;
+    case 'G':
+      if (aux_allowed()) { g_now = 1; uv_read_start(&h.stream, aux_alloc_cb, aux_read_cb); }
+      break;
     case 'C':
-      if (!g_closing) { g_closing = 1; uv_close(&h.handle, close_cb); }
+      if (!g_closing) { g_closing = 1; fprintf(vlog, "x%d ", arrivals()); uv_close(&h.handle, close_cb); }
       break;
     case 'R':
       if (in_cb) break;
@@ -264,14 +296,15 @@ static void do_ops(char* ops, int in_cb) {
       saw_event = 0;
       uv_run(&loop, UV_RUN_NOWAIT);
       fprintf(evlog, "%d ", saw_event);
+      { int a0 = arrivals(); unclaimed += a0; fprintf(vlog, "r%d ", a0); }
       break;
     default: break;
     }
-    printf("q%u ", loop.active_reqs.count);      /* requests registered with the loop, after every operation */
+    printf("q%d ", (int) loop.active_reqs.count - aux_out);   /* connect requests registered with the loop, after every operation */
   }
 }
 
-static void drain_listeners(void) { (void) arrivals(); }
+static void drain_listeners(void) { (void) arrivals(); release_conns(); }
 
 static void run_connect_case(char** sec) {
   char* p; char* save; int i;
@@ -293,7 +326,7 @@ static void run_connect_case(char** sec) {
   slog = open_memstream(&slog_b, &slog_n); clog_ = open_memstream(&clog_b, &clog_n);
   glog = open_memstream(&glog_b, &glog_n); evlog = open_memstream(&ev_b, &ev_n);
   vlog = open_memstream(&vlog_b, &vlog_n);
-  nreq = 0; g_quiet = 0; g_closing = 0; in_call = 0; g_watch_fd = -1;
+  nreq = 0; g_quiet = 0; g_closing = 0; in_call = 0; g_watch_fd = -1; aux_out = 0; g_now = 0;
   uv_loop_init(&loop);
   uv_prepare_init(&loop, &keepalive); uv_prepare_start(&keepalive, prep_cb);
   if (g_kind == 't') uv_tcp_init(&loop, &h.tcp); else uv_pipe_init(&loop, &h.pipe, 0);
